@@ -23,7 +23,7 @@ func TestC03(t *testing.T) {
 		sc := genScenario(t, o)
 		if rapid.IntRange(0, 3).Draw(t, "make_reject") == 0 {
 			sc.Note = genRejection(t, sc)
-			if (sc.Note == "mid:bad_flag" || sc.Note == "mid:garbage_payload" || sc.Note == "mid:over_limit") && formEnveloped(sc.Client.Form) && rapid.IntRange(0, 2).Draw(t, "duplex_backend") == 0 {
+			if (sc.Note == "mid:bad_flag" || sc.Note == "mid:garbage_payload" || sc.Note == "mid:over_limit") && formEnveloped(sc.Client.Form) && rapid.IntRange(0, 1).Draw(t, "duplex_backend") == 0 {
 				// a streaming handler that has written its whole answer or its first frame (complete frames only)
 				// before it reads the request the transcoder then rejects, and that carries on regardless
 				sc.Backend.ReadAfterWrites = 1
